@@ -1,4 +1,6 @@
 SPECIFICATION Spec
 INVARIANT Inv
 PROPERTY Terminates
+PROPERTY RefInit
+PROPERTY RefStep
 CHECK_DEADLOCK FALSE
